@@ -177,6 +177,19 @@ def run(chk, prop="C02"):
                 nsc += 1
                 chk.ob("C02-D2.scale", o["function"], o["construct"], o["ok"], o["where"], o["detail"], o["expected"])
         chk.floor("C02-D2.scale", nsc, 5, "quadrature-scale obligations shared with C10")
+        chk.rule("C02-D8.independent", "integrate() and getQuadratureWeights() apply the constant Jacobian of the linear domain transform and the conformal weight correction independently of each "
+                                       "other: neither is control dependent on a test of the other transform (obligations of C10-D6 for the quadrature family), so integrate() stays the weighted sum when both are set")
+        nin = 0
+        for o in sub.obls:
+            if o["rule"] == "C10-D6.independent" and ("getQuadratureScale" in o["construct"] or "mapConformalWeights" in o["construct"]):
+                nin += 1
+                chk.ob("C02-D8.independent", o["function"], o["construct"], o["ok"], o["where"], o["detail"], o["expected"])
+        chk.floor("C02-D8.independent", nin, 4, "quadrature corrections of the API class (shared with C10)")
+        from rules import workset
+        chk.rule("C02-D9.workset", "the point set whose space getGlobalPolynomialSpace() lists is the one getPoints()/getQuadratureWeights()/integrate() work on: every selection between the loaded "
+                                   "and the needed set in the Global, Sequence and Fourier grids picks the loaded points whenever there are any (obligations of C03-D4 for these classes)")
+        nws = workset.workset_rule(chk, db, "C02-D9.workset", classes=("TasGrid::GridGlobal", "TasGrid::GridSequence", "TasGrid::GridFourier", "TasGrid::BaseCanonicalGrid"))
+        chk.floor("C02-D9.workset", nws, 15, "work-set selections in the Global, Sequence and Fourier grids")
         chk.rule("C02-D6.fresh", "integrate() of Sequence and Fourier grids reads the hierarchical coefficients: after every change of the values or of the point set the coefficients are "
                                  "recomputed on every path (obligations of C01-D1 for these two classes), so integrate() equals the weighted sum of the values that are loaded now")
         from rules import c01
